@@ -9,6 +9,9 @@ use simcore::{RunResult, Violation};
 pub struct Errs(Rc<RefCell<Vec<(String, String)>>>);
 
 impl Errs {
+    pub fn is_empty(&self) -> bool {
+        self.0.borrow().is_empty()
+    }
     pub fn push(&self, oracle: &str, detail: impl Into<String>) {
         self.0.borrow_mut().push((oracle.to_string(), detail.into()));
     }
